@@ -149,6 +149,10 @@ def ctlOp (s : RState) (t : List String) : RState :=
     let xs := ((hs.splitOn ",").map hostOf).mergeSort (· ≤ ·)
     { s with w := xs.foldl (fun w x => w.crash x) w, expectObs := some "ok" }
   | ["links"] => { s with expectObs := some s!"links {w.linksView}" }
+  | ["deliverall", a, b] =>
+    -- `LinkIter::deliver_all`: `SentRef::deliver` on every in-flight message of the link, in queue order
+    let f : Link Env → Link Env × List (Sent Env) := fun l => ((List.range l.sent.length).foldl (fun l i => l.manualDeliver i) l, [])
+    { s with w := w.onLink (hostOf a) (hostOf b) f, expectObs := some "ok" }
   | ["deliver", a, b, i] =>
     { s with w := w.ctlDeliver (hostOf a) (hostOf b) (i.toNat?.getD 0), expectObs := none }
   | ["mark", _] => { s with expectObs := some "ok" }
